@@ -246,7 +246,7 @@ func runPart(prop, tier string, seed uint64, p *part) *partResult {
 					mu.Unlock()
 					return
 				}
-				v, herr := confirmCrash(prop, tier, seed, p, idx, wo)
+				v, herr := confirmCrash(prop, tier, seed, p, idx, wo, from)
 				mu.Lock()
 				if herr != nil {
 					res.err = herr
@@ -295,7 +295,7 @@ func crashKind(wo *workerOutcome) (kind, msg string) {
 
 // confirmCrash re-executes one run index alone in a fresh process. Only a
 // confirmed crash or hang becomes a violation.
-func confirmCrash(prop, tier string, seed uint64, p *part, idx int, first *workerOutcome) (*Line, error) {
+func confirmCrash(prop, tier string, seed uint64, p *part, idx int, first *workerOutcome, hfrom int) (*Line, error) {
 	args := []string{"prop=" + prop, "tier=" + tier, "seed=" + strconv.FormatUint(seed, 10), "part=" + p.Name, "only=" + strconv.Itoa(idx), "from=" + strconv.Itoa(idx), "race=" + b2s(p.Race), "out=" + filepath.Join(verifDir, "replays")}
 	caseFile := filepath.Join(workDir, fmt.Sprintf("case-%s-%d.json", p.Name, idx))
 	if propDefs[prop].Store != nil {
@@ -314,6 +314,27 @@ func confirmCrash(prop, tier string, seed uint64, p *part, idx int, first *worke
 			// at hand is fine on its own: the environment, not the code under test. Carry on.
 			fmt.Fprintf(os.Stderr, "note: a worker of part %s ran out of memory at index %d; the index runs clean alone, the worker is restarted after it\n", p.Name, idx)
 			return nil, nil
+		}
+		// Not alone - but perhaps after the same runs this worker had executed before it, in the same
+		// order, in one process: state outside the instance (package-level variables of the code
+		// under test) that earlier runs left behind. That history is replayable.
+		if propDefs[prop].Store == nil && p.Name != "sweep" && hfrom < idx && (idx-hfrom)/p.Workers <= 4000 {
+			hargs := []string{"prop=" + prop, "tier=" + tier, "seed=" + strconv.FormatUint(seed, 10), "part=" + p.Name,
+				"from=" + strconv.Itoa(hfrom), "to=" + strconv.Itoa(idx+1), "stride=" + strconv.Itoa(p.Workers), "race=" + b2s(p.Race), "out=" + filepath.Join(verifDir, "replays")}
+			hw := spawn(p.Race, hargs, 120*time.Second, 900*time.Second)
+			if !(hw.summary != nil && hw.exitErr == nil) {
+				if last, ok := lastRun(hw.stderr); ok && last == idx {
+					kind, msg := crashKind(hw)
+					v := &props.Violation{Prop: prop, Kind: kind, Task: -1, OpIdx: -1, OpKind: "run",
+						Msg: fmt.Sprintf("%s | %s | run %d of part %s ends like this only after runs %d, %d, ... of the same part were executed before it in the same process (it is fine in a fresh process): state outside the Plenc instance survives from one use to the next", msg, firstPlencFrame(hw.stderr), idx, p.Name, hfrom, hfrom+p.Workers)}
+					rf := &props.ReplayFile{Property: prop, Engine: "echo", Violation: v, Echo: &props.EchoCase{Seed: seed, From: hfrom, To: idx, Stride: p.Workers, Part: p.Name, Tier: tier, Race: p.Race}, Race: p.Race, Confirmed: true}
+					path := filepath.Join(verifDir, "replays", fmt.Sprintf("%s-%d-%s-%d-history-crash.json", prop, seed, p.Name, idx))
+					if err := rf.Write(path); err != nil {
+						return nil, err
+					}
+					return &Line{Ev: "viol", Idx: idx, Part: p.Name, Viol: v, Replay: path}, nil
+				}
+			}
 		}
 		// Died or hung in the company of the runs before it, fine on its own. The usual reason: a
 		// run was aborted part-way (step budget, deadlock) by a panic through the code under test,
